@@ -28,7 +28,7 @@ def lit(t, v):
 
 def headers(ctx):
     hs = []
-    R = range(4) if ctx.quick else range(5)
+    R = range(4) if ctx.quick else range(6)
     for t in ("int", "float"):
         for a, b in itertools.product(R, repeat=2):
             hs.append((t, "%d:%d" % (a, b), list(range(a, b)), "range"))
@@ -134,6 +134,9 @@ def build(ctx):
     cases = []
     hs = headers(ctx)
     bodies = BODIES + ([] if ctx.quick else BODIES_T)
+    if not ctx.quick:
+        singles = [b for b in BODIES if len(b) == 1]
+        bodies = bodies + [a + b for a in singles for b in singles if a != b]
     ctxs = [("", "", False), ("P(n) | 5\n", "Q(n) | 6\n", False), ("float x = 0.5\n", "", True), ("", "R(n, A[0]) | [1, 0]\n", True)]
     for (t, h, vals, kind), body in itertools.product(hs, bodies):
         if not usable(t, body):
